@@ -690,7 +690,15 @@ func checkRuntimeRelease(c *report.Ctx) {
 		}
 		for _, call := range an.CallsTo(u, "L/appctx.ApplicationContext.Store") {
 			// (one store behind a flag that each arm computed is one store site per arm, under that arm's condition)
-			for _, alt := range uf.Alternatives(call.Block()) {
+			alts := uf.Alternatives(call.Block())
+			if len(alts) == 1 && len(call.Block().Preds) >= 2 {
+				// one store after the arms joined (each arm leaves early where it must not store): one site per arm
+				alts = nil
+				for _, p := range call.Block().Preds {
+					alts = append(alts, uf.OnEdge(p, call.Block()))
+				}
+			}
+			for _, alt := range alts {
 				n++
 				longer := holds(alt, func(ft an.Fact) bool {
 					r, k := an.AsRel(ft)
@@ -702,6 +710,12 @@ func checkRuntimeRelease(c *report.Ctx) {
 					return l1 && l2 && (r.Op == token.GTR || r.Op == token.LSS)
 				})
 				notClosed := holds(alt, func(ft an.Fact) bool {
+					// (the same test by the library: !strings.HasSuffix(release, ")"))
+					if cl, _ := an.CallOf(ft.Cond); cl != nil && an.Callee(cl) == "strings.HasSuffix" && !ft.Val && len(cl.Call.Args) == 2 {
+						if sfx, isS := an.ConstString(cl.Call.Args[1]); isS && sfx == ")" {
+							return true
+						}
+					}
 					r, k := an.AsRel(ft)
 					if !k || r.Op != token.NEQ {
 						return false
